@@ -654,9 +654,68 @@ func c10WithRootChains(c *Ctx) {
 	}
 }
 
+// c10CachedRoot: ExpandSchemaWithBasePath called WITHOUT a base location on a cache that already holds the root
+// (left there by an earlier ExpandSchema / Expand…WithRoot call on the same cache, or put there by hand under the
+// pseudo location): a $ref that is left (cycle) reads against the root - it is fragment-only, like the ones the
+// root-based entry points leave.
+func c10CachedRoot(c *Ctx) {
+	rootText := `{"swagger":"2.0","info":{"title":"t","version":"1"},"paths":{},"definitions":{
+		"node":{"type":"object","properties":{"next":{"$ref":"#/definitions/node"},"leaf":{"$ref":"#/definitions/leaf"}}},
+		"leaf":{"type":"string","description":"a leaf"},
+		"a":{"type":"object","properties":{"b":{"$ref":"#/definitions/b"}}},"b":{"type":"object","properties":{"a":{"$ref":"#/definitions/a"}}},
+		"plain":{"type":"integer"}}}`
+	for _, form := range []string{"typed", "generic", "by-hand"} {
+		for _, start := range []string{"node", "a", "leaf"} {
+			var root interface{}
+			var sw spec.Swagger
+			_ = json.Unmarshal([]byte(rootText), &sw)
+			root = &sw
+			if form == "generic" {
+				_ = json.Unmarshal([]byte(rootText), &root)
+			}
+			cache := spec.VerifDefaultCache()
+			cs := map[string]interface{}{"root": json.RawMessage(rootText), "root-form": form, "element": "#/definitions/" + start,
+				"sequence": "ExpandSchema(#/definitions/plain, root, cache); ExpandSchemaWithBasePath(element, cache, nil)"}
+			want := spec.RefSchema("#/definitions/" + start)
+			got := spec.RefSchema("#/definitions/" + start)
+			var e0, e1, e2 error
+			pan := safely(func() {
+				e0 = spec.ExpandSchema(want, root, spec.VerifDefaultCache())
+				if form == "by-hand" {
+					cwd, _ := os.Getwd()
+					var doc interface{}
+					_ = json.Unmarshal([]byte(rootText), &doc)
+					cache.Set(spec.VerifNormalizeBase(filepath.ToSlash(filepath.Join(cwd, ".root"))), doc)
+				} else {
+					e1 = spec.ExpandSchema(spec.RefSchema("#/definitions/plain"), root, cache)
+				}
+				e2 = spec.ExpandSchemaWithBasePath(got, cache, nil)
+			})
+			c.Count("cached-root:"+form+start, true)
+			c.Hit("cached-root-no-base")
+			if pan != "" || e0 != nil || e1 != nil || e2 != nil {
+				c.Fail(Failure{Kind: "oracle", Sig: "C08:spurious-error", What: fmt.Sprint("every $ref is resolvable but a call of the sequence fails: ", e0, e1, e2, pan), Case: cs})
+				continue
+			}
+			gj, wj := jsonOf(got), jsonOf(want)
+			if gv, err := wire.Parse([]byte(gj)); err == nil {
+				var refs []string
+				refTexts(gv, &refs)
+				for _, r := range refs {
+					if !strings.HasPrefix(r, "#/definitions/") {
+						c.Fail(Failure{Kind: "oracle", Sig: "C10:ref-does-not-read-against-root", What: fmt.Sprintf("the $ref %q left by ExpandSchemaWithBasePath (no base, root in the cache) does not read against the root document; ExpandSchema with the root leaves %s", r, clip(wj)), Case: cs, Impl: clip(gj)})
+						break
+					}
+				}
+			}
+		}
+	}
+}
+
 func runC10(c *Ctx) {
 	c10RelativeBases(c)
 	c10WithRootChains(c)
+	c10CachedRoot(c)
 	c.Res.Rule = "every definition, parameter and response of random roots (single-document for the *WithRoot / ExpandSchema entry points, multi-document for ExpandSchemaWithBasePath / ExpandParameter / ExpandResponse), expanded through each entry point with a typed root, a generic (map) root, a nil root plus base location, and a pre-filled cache; oracle: the result denotes the same tree as the element in the context of the root (independent unfolding to depth 6), remaining $refs resolve against the root and lie on a cycle, the root document (JSON before/after) and the option structure are unchanged; the proved-sound checker must accept every result; non-trivial = element with at least one reference; distinct by (world, element, entry point)"
 	n := c.N(120, 3000)
 	fams := cacheFamilies()
